@@ -394,6 +394,32 @@ def install(E):
                               r'iterated_|current|operand_sets|since_entry|phi[01]:preserved|nodes_cover_phi0:preserved|memo_inv:preserved|:cut3$|:cut4$|:cut5$)',
                'cuts': {'ensures:result_is_sat': [eu_cut_lfp_instance, eu_cut_sound, eu_cut_base, eu_cut_step, eu_cut_complete],
                         'ensures:memo_inv': [eu_cut_lfp_instance, eu_cut_sound, eu_cut_base, eu_cut_step, eu_cut_complete]}}, owner='C01'))
+    # -- modelcheck (object formula, no fairness): the API-level statement of C01/C19 ------------
+    STATE_TAGS = ('Not', 'Or', 'And', 'Imply', 'Bool', 'AtomicProposition', 'A', 'E')
+
+    def mc_requires(c):
+        h0, k, f = c.h0, c.kripke.t, c.formula.t
+        out = [('kripke_wf', wfK(h0, k)),
+               ('no_None_state', z3.Not(V(h0, k)[hp.NONE_H])),
+               # a CTL formula object: its state-formula class implies the documented grammar (C08, bounded)
+               ('objects_of_state_classes_are_wf', z3.Implies(is_tag(f, *STATE_TAGS), wfS(f)))]
+        if c.side == 'callee':
+            out.append(('documented_semantics', z3.And(ctx_axioms(c))))
+        return out
+
+    def mc_ensures(c):
+        s = X('s')
+        R = c.h1.set_of(c.res.t)
+        return [('result_is_sat', z3.ForAll([s], R[s] == sat(c.formula.t)[s])),
+                ('result_is_fresh', z3.And(c.res.t >= c.h0.alloc, c.res.t < c.h1.alloc))]
+
+    reg(Contract(
+        'modelcheck', 'ctl', [('kripke', 'kripke'), ('formula', 'F'), ('parser', 'none'), ('F', 'none')], ret='set',
+        requires=mc_requires, ensures=mc_ensures,
+        raises={'TypeError': lambda c: z3.Not(is_tag(c.formula.t, *STATE_TAGS))},
+        touches={'sets', 'fd', 'fv'}, hints={'dict_kind_default': 'fdict'}, owner='C01',
+        note='object formulas, F=None; the text/parser leg and the fairness leg are bounded only'))
+
     reg(Contract(
         '_checkEG', 'ctl', PARAMS, ret='set',
         requires=lambda c: common_requires(c, lambda f: z3.And(is_tag(f, 'E'), is_tag(kid0(f), 'G'))),
